@@ -320,7 +320,7 @@ def run(tier, seed, jobs):
     cap = 400 if tier == 'quick' else 1500
     from mc import progfam
     # hand-built family (mc/progfam.py): the complete overwriting tree of every (core / thorough: every) program
-    fam = [(progfam.family_configs(pipeline.LANGS, 'all' if tier == 'thorough' else 'mini'), ['first'], 0, 1, True, 12)]
+    fam = [(progfam.family_configs(pipeline.LANGS, 'all' if tier == 'thorough' else 'mini'), ['first'], 0, 1, True, 6 if tier == 'quick' else 24)]
     only = os.environ.get('VERIF_C04_ONLY')
     for part in fam + ([] if only == 'family' else plan(tier)):
         configs, policies, bound, nslices, full = part[:5]
